@@ -25,15 +25,26 @@ RACE=""
 case "$ID" in
   C20) YIELD="datamodel,node/basicnode,node/bindnode,node/gendemo,schema,traversal,traversal/selector,linking,linking/cid,multicodec,codec,codec/dagcbor,codec/dagjson,codec/cbor,codec/json,codec/raw,storage/memstore,printer,node/mixins" ;;
 esac
-./bin/instrument -repo "$REPO" -out "$B/overlay" -fs ${YIELD:+-yield "$YIELD"} >"$B/instrument.log" 2>&1 || { cat "$B/instrument.log" >&2; build_fail "overlay generation"; }
+DETMAPS=""
+RGO="$GO"
+if [ "$ID" = "C20" ]; then
+  # The race child is built with a runtime whose map hashing / iteration order is fixed
+  # (replay determinism). Overlays may not touch files under GOMODCACHE, where the
+  # auto-downloaded toolchain lives, so that GOROOT is reached through a symlink.
+  REALROOT="$(cd "$REPO" && $GO env GOROOT)"
+  ln -sfn "$REALROOT" "$VERIF_DIR/.build/goroot-c20"
+  DETMAPS="$VERIF_DIR/.build/goroot-c20"
+  RGO="env GOROOT=$DETMAPS GOTOOLCHAIN=local $DETMAPS/bin/go"
+fi
+./bin/instrument -repo "$REPO" -out "$B/overlay" -fs ${YIELD:+-yield "$YIELD"} ${DETMAPS:+-detmaps "$DETMAPS"} >"$B/instrument.log" 2>&1 || { cat "$B/instrument.log" >&2; build_fail "overlay generation"; }
 MODFLAG=""
 if [ "$REPO" != "/repo" ]; then
   sed "s#=> /repo#=> $REPO#" go.mod > "$B/go.mod"; cp go.sum "$B/go.sum"
   MODFLAG="-modfile=$B/go.mod"
 fi
-$GO build $MODFLAG -overlay "$B/overlay/overlay.json" -o "$B/simcheck" ./cmd/simcheck >"$B/build.log" 2>&1 || { tail -30 "$B/build.log" >&2; build_fail "driver build against $REPO"; }
+$RGO build $MODFLAG -overlay "$B/overlay/overlay.json" -o "$B/simcheck" ./cmd/simcheck >"$B/build.log" 2>&1 || { tail -30 "$B/build.log" >&2; build_fail "driver build against $REPO"; }
 if [ "$ID" = "C20" ]; then
-  $GO build $MODFLAG -race -overlay "$B/overlay/overlay.json" -o "$B/simcheck.race" ./cmd/simcheck >"$B/build-race.log" 2>&1 || { tail -30 "$B/build-race.log" >&2; build_fail "race build against $REPO"; }
+  $RGO build $MODFLAG -race -overlay "$B/overlay/overlay.json" -o "$B/simcheck.race" ./cmd/simcheck >"$B/build-race.log" 2>&1 || { tail -30 "$B/build-race.log" >&2; build_fail "race build against $REPO"; }
   export VERIF_RACE_BIN="$B/simcheck.race"
 fi
 if [ "$TIER" = "replay" ]; then exec "$B/simcheck" --replay "$3"; fi
